@@ -227,7 +227,19 @@ def _ctparse(
         # get subject by extracting regex stack from raw text
         # a word is dropped if it lies inside a match, by position: the same
         # word elsewhere in the text ("week" next to "next week") is kept
-        spans = {(m.mstart, m.mend) for pp in stack for m in pp.prod}
+        # (matches that touch each other count as one stretch: "Montagmorgen")
+        spans = set()
+        for pp in stack:
+            start = end = None
+            for m in pp.prod:
+                if end is not None and m.mstart <= end:
+                    end = max(end, m.mend)
+                    continue
+                if end is not None:
+                    spans.add((start, end))
+                start, end = m.mstart, m.mend
+            if end is not None:
+                spans.add((start, end))
         subject = ' '.join(
             w.group()
             for w in re.finditer(r'[^\s-]+', txt)
